@@ -262,9 +262,14 @@ pub fn run_check(prop: &str, tier: &str) -> i32 {
         }
         "C09" => {
             report.level = "fault_enumeration";
-            c09::check(tier, budget * 0.7, &mut report);
+            c09::check(tier, budget * 0.55, &mut report);
             // the io_uring batch path: deviations on the submission / completion seam
-            c09::check_uring(budget * 0.3, false, &mut report);
+            c09::check_uring(budget * 0.25, false, &mut report);
+            // flush acknowledgements racing the background flusher while record writes fail:
+            // "flush() returns Ok only if everything accepted before it is really durable"
+            let cache = std::sync::Mutex::new(std::collections::HashMap::new());
+            let judge = |p: &schedprops::Program, ex: &schedprops::Exec| schedprops::judge_acknowledged(p, ex, &cache);
+            schedprops::run_programs(c08::ack_fault_programs(), if thorough { 3 } else { 2 }, 4000, budget * 0.2, &judge, None, &["C09", "C02", "C03"], &mut report);
             // a shard backlog longer than one journal-sized batch behind a failing batch
             if report.violations.is_empty() {
                 c19::failed_backlog_for_c09(&mut report);
@@ -526,6 +531,7 @@ pub fn all_sched_programs() -> Vec<schedprops::Program> {
         v.extend(c08::contention_programs(thorough));
         v.extend(c08::write_behind_programs());
         v.extend(c08::ack_programs());
+        v.extend(c08::ack_fault_programs());
         v.extend(concprogs::scan_programs(thorough));
         v.extend(concprogs::limit_programs(thorough));
         v.extend(concprogs::sweep_programs(thorough));
